@@ -6,5 +6,10 @@ CLAIMS = {
 
  'C13': dict(text='bounded proof by symbolic execution: validate(), gen_msg() and DATAInterface.send_msg() run on messages whose numeric fields are unconstrained symbolic integers (|x| <= 2^40), symbolic version and symbolic burst length; on every path z3 shows "raised ValueError <=> some field outside the protocol range table" and that no other exception type can escape, and that a datagram is emitted iff the table holds. Boundary values (e.g. FN 2715648) that random tests hit with probability 1e-6 are covered by construction.',
              note='trusted: z3, pysym models, the range table transcribed from the property statement in vf/checks/c13.py; field values that are not int/None are outside the claim'),
+
+ 'C07': dict(text='bounded proof: HoppingParams.resolve() executed symbolically for each N=1..64 with FN (all 2715648), HSN 0..63 and MAIO 0..63 symbolic; z3 shows the result equals MA[MAI] of the TS 45.002 6.2.3 reference algorithm for all values. Finds the deviation branch M\' >= N that random tests practically never exercise.',
+             note='trusted: z3, pysym, the reference algorithm and pinned RNTABLE in vf/checks/c07.py (compared with the repository copies at run time)'),
+ 'C04': dict(text='bounded proof: (a) every octet produced by gen_msg() for each of the 26 valid message shapes equals the protocol layout term for all field values and bits; (b) fully symbolic datagrams of each length: parse_msg() either raises ValueError (only for the documented reasons) or yields fields equal to the layout reading of the octets.',
+             note='trusted: z3, pysym models, the layout transcribed in vf/checks/common.py'),
 }
 NOT_APPLICABLE = {}
